@@ -227,10 +227,10 @@ def check_case(ctx, case):
                                 # of a tie may fall on either side
                                 eps = Fraction(max(abs(v) for v in vals)
                                                ) / 2 ** 45
-                                ok = g in (dtype_ref.to_int_type(
-                                    m - eps, case["dtype"]),
+                                ok = dtype_ref.to_int_type(
+                                    m - eps, case["dtype"]) <= g <= \
                                     dtype_ref.to_int_type(
-                                        m + eps, case["dtype"]))
+                                        m + eps, case["dtype"])
                     if not ok:
                         ctx.fail("%s%s %s: output[%d,%d,%d,%d]=%r, exact "
                                  "reference %r from block %r (outside=%r)" % (
